@@ -47,6 +47,7 @@ structure CallO where
   done : Bool
   failed : List String
   err : Option E
+  waitMs : Nat := 0
   deriving Inhabited
 
 structure HO where
@@ -154,7 +155,7 @@ def judge (j : Json) : Except String Verdict := do
            list := ← getStrList f "list" : FnO }
   let callsO ← (← arrOf obs "calls").mapM fun c => do
     pure { u := ← getNat c "u", s1 := getNatD c "s1", s2 := getNatD c "s2", done := getBoolD c "done",
-           failed := ← getStrList c "failed", err := errObs c : CallO }
+           failed := ← getStrList c "failed", err := errObs c, waitMs := getNatD c "wait_ms" : CallO }
   let hs ← (← arrOf obs "h").mapM fun h => do
     pure { r := ← getNat h "r", p := ← getNat h "p", sin := ← getNat h "in", sout := ← getNat h "out" : HO }
   let nU := callsI.size
@@ -202,7 +203,10 @@ def judge (j : Json) : Except String Verdict := do
   let mut why := ""
   let fail (ok : Bool) (sig why : String) (s w : String) : Bool × String × String :=
     if ok then (false, s, w) else (false, sig, why)
-  if status == "blocked" then
+  -- a run in which every update call returned but a runtime REQUEST is still pending is outside
+  -- what C19 claims (it says nothing about requests completing): recorded, not judged
+  let onlyRequestsPending := status == "blocked" && kind == "upd" && callsO.all (·.done)
+  if status == "blocked" && !onlyRequestsPending then
     (ok, sig, why) := fail ok sig why "C19:blocked" s!"calls still pending: {note}"
   match unknownFn with
   | some i =>
@@ -333,14 +337,23 @@ def judge (j : Json) : Except String Verdict := do
   if agreeWhy == "" && unknownFn.isSome then agreeWhy := "an UpdateFn invocation matches no call"
   if agreeWhy == "" && status == "ok" && (s.mu.isSome || !s.inside.isEmpty) then
     agreeWhy := "history ends with the adaptation mutex held"
+  -- the slow stream: how many calls really waited longer than the plugin request time-out
+  let rt := getNatD inp "req_timeout_ms"
+  let overdue := if rt == 0 then 0 else (callsO.filter (fun c => c.done && c.waitMs > rt)).size
+  if rt > 0 then
+    cover := "slow" :: s!"slow:overdue-calls:{if overdue == 0 then "0" else if overdue < 4 then "1-3" else ">=4"}" :: cover
   cover := s!"contended:{if contended == 0 then "0" else if contended < 10 then "1-9" else ">=10"}" :: cover
   cover := (if nErr > 0 then ["result:error"] else []) ++ (if nOk > 0 then ["result:ok"] else []) ++ cover
   if callsI.any (fun c => c.list.isEmpty) then cover := "list:empty" :: cover
   if callsI.any (fun c => c.list.length ≥ 5) then cover := "list:>=5" :: cover
   if callsI.any (fun c => c.err.isNone && !c.failed.isEmpty) then cover := "failed:nonempty" :: cover
   if callsI.any (fun c => c.err.isSome && !c.failed.isEmpty) then cover := "failed:with-error" :: cover
+  if onlyRequestsPending && ok then
+    return { agree := rej.isNone, spec := true, excluded := true, sig := "request-never-returned",
+             why := s!"all update calls returned, but a runtime request was still pending after the deadline; goroutines: {(getStrD obs "stacks").take 1500}",
+             cover := "anomaly:request-never-returned" :: cover }
   pure { agree := agreeWhy == "", spec := ok, why := if !ok then why else agreeWhy, sig := sig, cover := cover,
-         nontrivial := contended > 0 || kind == "cfgupd",
+         nontrivial := (if rt > 0 then overdue > 0 else contended > 0) || kind == "cfgupd",
          model := Json.mkObj [("calls", nU), ("invocations", fns.size), ("handlers", hs.size),
                               ("contended", contended), ("accepted", rej.isNone)] }
 
